@@ -493,6 +493,9 @@ func RenderHistory(r *Rand, h *XHistory, plain bool, encrypt func(num uint32, ge
 				if _, isRef := a.Value.(XRef); isRef {
 					continue
 				}
+				if _, isName := a.Value.(XName); isName {
+					continue // may be the target of an indirect /Filter entry, which readers fetch without object streams
+				}
 				if (n == h.root().Num) && r.Bool() {
 					continue
 				}
